@@ -153,6 +153,14 @@ def build_initial(spec):
             if r.get("r", 1) > 1:
                 row.set_attribute("table:number-rows-repeated", str(r["r"]))
             Element.append(t, row)
+        if spec.get("underdeclared") and len(g.cols) > 1:
+            # as some producers write it: fewer column declarations than the widest row has cells (the model keeps the
+            # full width so that generated coordinates reach those cells; only the live-vs-fresh oracle of C02 uses this)
+            cols_el = [c for c in t.children if c.tag == "table:table-column"]
+            for c in cols_el[1:]:
+                t.delete(c)
+            if cols_el and cols_el[0].get_attribute("table:number-columns-repeated"):
+                cols_el[0].del_attribute("table:number-columns-repeated")
         t2 = Element.from_tag(t.serialize())
         return t2, g
     if kind in ("corpus", "office"):
@@ -215,7 +223,7 @@ def st_row(maxcells=5, maxrep=4):
     })
 
 
-def st_initial(corpus_specs=()):
+def st_initial(corpus_specs=(), underdeclared=False):
     rle = st.fixed_dictionaries({
         "kind": st.just("rle"),
         "via": st.sampled_from(["xml", "api"]),
@@ -232,6 +240,11 @@ def st_initial(corpus_specs=()):
     ]
     opts.append(st.fixed_dictionaries({"kind": st.just("office"), "span": st.integers(2, 6), "data_w": st.integers(1, 4), "data_rows": st.integers(0, 3),
                                        "colrep": st.integers(1, 8), "tail": st.integers(0, 4), "pad": st.booleans()}))
+    if underdeclared:
+        opts.append(st.fixed_dictionaries({
+            "kind": st.just("rle"), "via": st.just("xml"), "underdeclared": st.just(True),
+            "cols": st.lists(st.tuples(st.integers(0, len(CSTYLES) - 1), st.integers(1, 2)), min_size=1, max_size=2),
+            "rows": st.lists(st_row(), min_size=1, max_size=5)}))
     if corpus_specs:
         opts.append(st.sampled_from(list(corpus_specs)))
     return st.one_of(*opts)
@@ -543,6 +556,13 @@ class Runner:
                          for x, (v, _vt, s_, _c) in enumerate(row)])
         self.m = Grid(ex["col_styles"], rows)
 
+    def op_transpose(self, op):
+        """whole-table transpose (its content semantics are judged by C17); here it only brings the table, and its caches,
+        into the state a later read or edit starts from.  The grid is re-read from the independent expansion."""
+        self.t.transpose()
+        self._resync_model()
+        self.labels.add("transposed")
+
     def op_live_row(self, op):
         """Row-level reads and in-place narrowing edits on the stored row itself (get_row(clone=False)): the table's own
         answers must follow.  Only edits that cannot outgrow the declared columns are used (a row edited behind the table's
@@ -574,6 +594,18 @@ class Runner:
                 if x < w:
                     (row if e.get("via_row") else self.t).get_cell(x if e.get("via_row") else (x, y))
                     self.t.get_value((x, y))
+            elif k == "strip_probe":
+                # read exactly the first of the trailing empty cells through the table and through the row, then strip them
+                mrow = self.m.get_row(y)
+                x = len(mrow)
+                while x > 0 and mrow[x - 1][0] is None and (e.get("aggr") or mrow[x - 1][1] is None):
+                    x -= 1
+                if x < w:
+                    self.t.get_cell((x, y))
+                    row.get_cell(x)
+                    self.t.get_value((x, y))
+                    self.labels.add("strip-probe-on-trailing-empties")
+                row.rstrip(aggressive=bool(e.get("aggr")))
             elif k == "rstrip":
                 row.rstrip(aggressive=bool(e.get("aggr")))
             elif k == "set_value" and w:
@@ -768,6 +800,14 @@ class Runner:
                     ctx.check(cs == m.cols[x], sig("column-style"), f"get_column({x}).style = {cs!r}, grid {m.cols[x]!r}", self.case)
                     cc = t.get_column_cells(x)
                     self._cmp_matrix([[c.get_value() if c is not None else None for c in cc]], [wantc], "get_column_cells")
+                    # the same column counted from the end, and by letter
+                    if W:
+                        gotn = t.get_column_values(x - m.width)
+                        self._cmp_matrix([gotn], [wantc], "get_column_values(negative)")
+                        ccn = t.get_column_cells(alpha(x))
+                        self._cmp_matrix([[c.get_value() if c is not None else None for c in ccn]], [wantc], "get_column_cells(letter)")
+                        ctx.check(t.is_column_empty(x - m.width) == t.is_column_empty(x), sig("is_column_empty(negative)"),
+                                  f"is_column_empty({x - m.width}) != is_column_empty({x})", self.case)
                 cols = [c.style for c in t.traverse_columns()]
                 ctx.check(cols == m.cols, sig("traverse_columns"), f"column styles {cols!r}, grid {m.cols!r}", self.case)
             if every or k == 4:
@@ -911,7 +951,7 @@ def _eq(a, b):
 ROW_ADDERS = {"set_value", "set_cell", "insert_cell", "append_cell", "set_row", "insert_row", "append_row",
               "extend_rows", "set_row_values", "set_row_cells", "set_values", "set_cells", "row_edit", "reuse_row"}
 MUTATORS = ROW_ADDERS | {"delete_cell", "delete_row", "set_column_values", "set_column_cells", "set_column",
-                         "insert_column", "append_column", "delete_column", "clear", "strip", "live_row"}
+                         "insert_column", "append_column", "delete_column", "clear", "strip", "live_row", "transpose"}
 
 
 def run_history(spec, ops, mode, ctx):
@@ -942,7 +982,7 @@ def make_machine(ctx, mode, corpus_specs=(), warm_weight=1):
             self.warm_then_mutate = False
             self.last_warm = False
 
-        @initialize(spec=st_initial(corpus_specs))
+        @initialize(spec=st_initial(corpus_specs, underdeclared=(mode == "C02")))
         def init(self, spec):
             self.r = Runner(spec, ctx, mode)
             try:
@@ -1166,13 +1206,29 @@ def make_machine(ctx, mode, corpus_specs=(), warm_weight=1):
                 st.fixed_dictionaries({"k": st.just("read_first_trailing"), "aggr": st.booleans(), "via_row": st.booleans()}),
                 st.fixed_dictionaries({"k": st.just("read_at_end")}),
                 st.fixed_dictionaries({"k": st.just("read_at_end")}),
+                st.fixed_dictionaries({"k": st.just("strip_probe"), "aggr": st.booleans()}),
+                st.fixed_dictionaries({"k": st.just("strip_probe"), "aggr": st.booleans()}),
+                st.fixed_dictionaries({"k": st.just("strip_probe"), "aggr": st.just(True)}),
                 st.fixed_dictionaries({"k": st.just("rstrip"), "aggr": st.booleans()}),
                 st.fixed_dictionaries({"k": st.just("rstrip"), "aggr": st.booleans()}),
                 st.fixed_dictionaries({"k": st.just("set_value"), "kx": kx, "v": vi}),
                 st.fixed_dictionaries({"k": st.just("delete_cell"), "kx": kx})), min_size=1, max_size=4),
-                then_write=st.one_of(st.none(), vi))
+                then_write=st.one_of(st.none(), vi, vi, vi))
             def live_row(self, ky, edits, then_write):
                 self.go({"op": "live_row", "y": ky, "edits": edits, "then_write": then_write})
+
+        if mode == "C02":
+            @rule(wk=st.sampled_from(["get_row", "get_cell", "get_value", "get_row_noclone"]), kx_=kx, ky=kx, gx=st.integers(0, 6), r=st.integers(1, 2), cs=st.integers(0, 2))
+            def wide_row_insert(self, wk, kx_, ky, gx, r, cs):
+                """a cached read of a row, then a column inserted where only rows (wider than the declared columns) reach"""
+                rr = self.r
+                if rr is None or rr.dead or not rr.spec.get("underdeclared"):
+                    return
+                declared = rr.t.width
+                if rr.m.width <= declared:
+                    return
+                self.go({"op": "warm", "k": wk, "kx": kx_, "ky": ky})
+                self.go({"op": "insert_column", "x": declared + gx % (rr.m.width - declared), "r": r, "cs": cs, "form": "t"})
 
         @rule(really=st.integers(0, 5))
         def clear(self, really):
